@@ -9,6 +9,8 @@ import Emboss.Lemmas.BoundsGate
 import Emboss.Lemmas.BoundsTight
 import Emboss.Lemmas.BoundsSize
 import Emboss.Lemmas.BoundsTotal
+import Emboss.Lemmas.BoundsTyped
+import Emboss.Lemmas.BoundsTightChoice
 namespace Emboss.Bounds
 open ExtInt
 
@@ -171,9 +173,10 @@ Proved: every transfer function maps `InvOk` arguments to a result — it does *
 that is `InvOk` again (`C05_inv_transfer`, `C05_inv_transfer_max`), leaves and literals
 satisfy it (`C05_inv_leaves`), hence **every** annotation `abs` attaches passes
 `_assert_integer_constraints` (`C05_inv_preserved`, no side condition on the expression).
-Totality: `abs` returns on the whole arithmetic fragment (`C05_no_crash_arith`).  Not stated:
-"`abs e ≠ none` for every well-typed `e`" with comparisons — the model has no type checker to
-exclude ill-typed comparison operands.
+Totality: `abs` (and `ir_util.constant_value`) return on every well-typed expression,
+comparisons, `&&`, `||` and `?:` on arbitrary conditions included (`C05_no_crash`; the typing
+discipline `tyOf` is Model/ExprType.lean); `C05_no_crash_arith` is the earlier statement for the
+arithmetic fragment, kept because it does not need `tyOf`.
 -/
 
 /-- **Every transfer function preserves the invariant and does not raise.**
@@ -264,6 +267,34 @@ example :
     ArithOnly (.bin .mul (.upper (.ileaf 0 .uint none)) (.const 2)) = true := by
   decide +kernel
 
+/-- **The analysis never raises on a well-typed expression.**  For every expression that is
+well typed with type `τ` (`tyOf e = some τ`: `+ - *` on integers, `< <= > >=` on integers,
+`== !=` on two integers / two booleans / two enum values, `&& ||` on booleans, `?:` on a boolean
+and two operands of one type, `$max` of ≥ 1 integers, `$upper_bound`/`$lower_bound` of an
+integer, literals, fields, parameters, references to virtual fields) whose preset annotations
+satisfy the invariant: `compute_constraints_of_expression` returns an annotation of type `τ`
+that satisfies the invariant, and `ir_util.constant_value` does not raise and, when it knows
+a value, the value has type `τ`.  No assert fails, no `int("infinity")`, no `"infinity" % n`,
+no `KeyError`. -/
+theorem C05_no_crash (e : Expr) (τ : Ty) (ht : tyOf e = some τ) (hg : GivenOk e = true) :
+    (∃ ty, abs e = some ty ∧ ty.tag = τ ∧ InvOkT ty = true) ∧
+    cv e ≠ .crash ∧ (∀ x, cv e = .val x → x.tag = τ) := by
+  obtain ⟨⟨ty, habs, htag⟩, hc1, hc2⟩ := typed_aux e τ ht hg
+  exact ⟨⟨ty, habs, htag, InvT_iff.mpr (inv_aux e hg ty habs)⟩, hc1, hc2⟩
+
+/-- non-vacuity: `((a0 + 1 > $upper_bound(a1)) && (en == En.AA || fl)) ? $max(a0, 3) : a0 * dyn`
+    (with `dyn` of unknown size) is well typed; an ill-typed comparison is not, and there the
+    model's `abs` has no answer (type_check.py rejects such input before bounds are computed) -/
+example :
+    let a0 : Expr := .ileaf 0 .uint (some 8)
+    let e : Expr := .choice
+      (.bin .and (.bin .gt (.bin .add a0 (.const 1)) (.upper (.ileaf 1 .sint (some 16))))
+                 (.bin .or (.bin .eq (.eleaf 0) (.econst 1)) (.bleaf 0)))
+      (.max [a0, .const 3]) (.bin .mul a0 (.ileaf 2 .uint none))
+    tyOf e = some .int ∧ GivenOk e = true ∧
+    tyOf (.bin .lt (.bleaf 0) (.const 1)) = none ∧ abs (.bin .lt (.bconst true) (.const 1)) = none := by
+  decide +kernel
+
 /-- **`invPy` alone is not inductive**: an annotation without finite bounds passes the
 asserts whatever its `modular_value` is; `+` then raises.  (Never produced by the code:
 `CanonMv` is part of `InvOk`, which is what `C05_inv_preserved` proves.) -/
@@ -322,6 +353,43 @@ example : LinOnce (.bin .sub (.ileaf 0 .uint (some 8)) (.ileaf 0 .uint (some 8))
     abs (.bin .sub (.ileaf 0 .uint (some 8)) (.ileaf 0 .uint (some 8))) =
       some (.int ⟨.fin (-255), .fin 255, .fin 1, .fin 0⟩) := by
   decide +kernel
+
+/-- **Tightness of `?:` with an independent, non-constant condition.**  If both branches are in
+the single-occurrence fragment and mention disjoint leaves, the condition mentions none of the
+branches' leaves, the analysis does not fold the condition (`abs c` is a boolean without value)
+and the condition can evaluate to `true` as well as to `false`, then the analysis returns, both
+ends of the inferred interval are finite and each is attained.  The last hypothesis is what F12
+(`C05_tight_choice_counterexample`: a tautological condition) violates. -/
+theorem C05_tight_choice_independent (c t f : Expr)
+    (ht : LinOnce t = true) (hf : LinOnce f = true)
+    (hdtf : disjoint (ivars t) (ivars f) = true)
+    (hdtc : disjoint (ivars t) (ivars c) = true) (hdfc : disjoint (ivars f) (ivars c) = true)
+    (hc : abs c = some (.bool none))
+    (hT : ∃ ρ, EnvOk ρ c ∧ eval ρ c = some (.bool true))
+    (hF : ∃ ρ, EnvOk ρ c ∧ eval ρ c = some (.bool false)) :
+    ∃ a lo hi, abs (.choice c t f) = some (.int a) ∧ a.min = .fin lo ∧ a.max = .fin hi ∧
+      (∃ ρ, EnvOk ρ (.choice c t f) ∧ eval ρ (.choice c t f) = some (.int lo)) ∧
+      (∃ ρ, EnvOk ρ (.choice c t f) ∧ eval ρ (.choice c t f) = some (.int hi)) := by
+  obtain ⟨a, habs, _, lo, hi, h1, h2, h3, h4⟩ := choice_tight ht hf hdtf hdtc hdfc hc hT hF
+  exact ⟨a, lo, hi, habs, h1, h2, h3, h4⟩
+
+/-- non-vacuity: `(a0 > 3 || fl) ? a1 + 1 : 2 * a2` over `UInt:8 a0, a1`, `Int:4 a2`, `Flag fl`
+    meets every hypothesis; the inferred interval is −16 … 256 -/
+example :
+    let c : Expr := .bin .or (.bin .gt (.ileaf 0 .uint (some 8)) (.const 3)) (.bleaf 0)
+    let t : Expr := .bin .add (.ileaf 1 .uint (some 8)) (.const 1)
+    let f : Expr := .bin .mul (.const 2) (.ileaf 2 .sint (some 4))
+    LinOnce t = true ∧ LinOnce f = true ∧ disjoint (ivars t) (ivars f) = true ∧
+    disjoint (ivars t) (ivars c) = true ∧ disjoint (ivars f) (ivars c) = true ∧
+    abs c = some (.bool none) ∧
+    (∃ ρ, EnvOk ρ c ∧ eval ρ c = some (.bool true)) ∧
+    (∃ ρ, EnvOk ρ c ∧ eval ρ c = some (.bool false)) ∧
+    abs (.choice c t f) = some (.int ⟨.fin (-16), .fin 256, .fin 1, .fin 0⟩) := by
+  refine ⟨by decide +kernel, by decide +kernel, by decide +kernel, by decide +kernel,
+    by decide +kernel, by decide +kernel,
+    ⟨⟨fun _ => 4, fun _ => false, fun _ => 0⟩, ?_, by decide +kernel⟩,
+    ⟨⟨fun _ => 0, fun _ => false, fun _ => 0⟩, ?_, by decide +kernel⟩, by decide +kernel⟩ <;>
+  simp [EnvOk, InPhys]
 
 /-- **F12: `?:` with a tautological, non-folded condition is not tight.**
 `$upper_bound(x >= 0 ? 1 : 100)` over `UInt:8 x` is 100; `x` occurs once; the inner
